@@ -770,6 +770,7 @@ func C07(run *mon.Run) {
 	dkgDrive(run, "C07")
 	dkgLargeGroups(run)
 	dkgCraftedDealings(run)
+	dkgRootAnswered(run)
 	run.Require(run.Counter("end.ok") >= 50 && run.Counter("end.dkg-failure") >= 50, "both honest outcomes (keys / DKG failure) not seen at least 50 times")
 }
 
